@@ -6,7 +6,9 @@ package xf
 
 import (
 	"fmt"
+	"os"
 	"reflect"
+	"runtime/debug"
 	"strings"
 	"time"
 
@@ -226,6 +228,9 @@ func TranslateSafe(tf *transform.Transformer) (o Out) {
 func ReverseSafe(tf *transform.Transformer, v reflect.Value) (o Out) {
 	defer func() {
 		if r := recover(); r != nil {
+			if os.Getenv("XF_STACK") != "" {
+				fmt.Fprintf(os.Stderr, "%v\n%s\n", r, debug.Stack())
+			}
 			o = Out{Panicked: true, PanicMsg: fmt.Sprint(r)}
 		}
 	}()
